@@ -68,6 +68,9 @@ impl Engine for TcpEyesEngine {
     fn name(&self) -> &'static str {
         "tcpeyes"
     }
+    fn real_time(&self) -> bool {
+        true
+    }
     fn run_case(&self, c: &TcpEyesCase) -> CaseReport {
         // A deviation that lies within what machine load could explain (0.4-3 s late) is not judged on
         // one run: the case is repeated, and only the same deviation three times in a row counts.
